@@ -227,6 +227,15 @@ fn build_fixture(kind: u8) -> GrafeoDB {
                 db.create_edge_with_props(people[i], comps[i % 3], "WORKS_AT", vec![("role".to_string(), s("dev"))]);
             }
             db.create_edge(things[0], things[1], "REL");
+            // a sparse directed cycle (out-degree 1): unbounded variable-length patterns over it are
+            // cheap as long as the engine bounds the walk at all (family "varlen-sparse-cycle")
+            let mut ring = Vec::new();
+            for i in 0..3i64 {
+                ring.push(db.create_node_with_props(&["Ring"], vec![("id".to_string(), Value::Int64(i))]));
+            }
+            for i in 0..3 {
+                db.create_edge(ring[i], ring[(i + 1) % 3], "NEXT");
+            }
             // RDF
             let st = db.rdf_store();
             let xsd = |t: &str| format!("http://www.w3.org/2001/XMLSchema#{t}");
